@@ -37,7 +37,9 @@ def ev_tree(t, vals):
 
 VT = {"other": "TOther", "ndarray": "TNdarray", "field": "TField",
       # memory layouts of array summands: Fortran order (2-d), transposed view, strided view
-      "ndarrayF": "TNdarray", "ndarrayT": "TNdarray", "ndarrayS": "TNdarray"}
+      "ndarrayF": "TNdarray", "ndarrayT": "TNdarray", "ndarrayS": "TNdarray",
+      # arrays without entries still travel as header + (zero-byte) buffer message
+      "ndarrayE": "TNdarray", "ndarrayE2": "TNdarray"}
 
 
 def vtype_coq(vt, n=2):
@@ -61,6 +63,10 @@ def make_vals(vt, n, seed):
         return [(rng.normal(size=(3, 2)) * 10.0 ** rng.integers(-8, 8)).T for _ in range(n)]
     if vt == "ndarrayS":
         return [(rng.normal(size=(4, 6)) * 10.0 ** rng.integers(-8, 8))[::2, ::3] for _ in range(n)]
+    if vt == "ndarrayE":
+        return [np.zeros((0,), dtype=np.float64) for _ in range(n)]
+    if vt == "ndarrayE2":
+        return [np.zeros((2, 0), dtype=np.float32) for _ in range(n)]
     if vt == "ndarray0d":
         return [np.array(rng.normal() * 10.0 ** rng.integers(-8, 8)) for _ in range(n)]
     dom = ift.RGSpace(3)
@@ -138,7 +144,7 @@ def gen_cases(ctx):
             for p in partitions(n, nt):
                 cases.append((p, "other"))
     nrand = 40 if ctx.quick else 400
-    vts = ["other", "ndarray", "field", "multi1", "multi2", "multi3", "ndarrayF", "ndarrayT", "ndarrayS", "ndarray0d"]
+    vts = ["other", "ndarray", "field", "multi1", "multi2", "multi3", "ndarrayF", "ndarrayT", "ndarrayS", "ndarray0d", "ndarrayE", "ndarrayE2"]
     for i in range(nrand):
         nt = int(rng.integers(1, 7))
         n = int(rng.integers(1, 41))
@@ -146,7 +152,7 @@ def gen_cases(ctx):
         p = tuple(int(x) for x in np.diff(np.concatenate([[0], cuts, [n]])))
         cases.append((p, vts[i % len(vts)]))
     # small exhaustive for the structured payload types
-    for vt in ["ndarray", "field", "multi2", "ndarrayF", "ndarray0d"]:
+    for vt in ["ndarray", "field", "multi2", "ndarrayF", "ndarray0d", "ndarrayE"]:
         for n in range(1, 5):
             for p in partitions(n, 2):
                 cases.append((p, vt))
@@ -239,7 +245,7 @@ class C23(C.Check):
                 nn = int(rng.integers(1, 30))
                 cuts = np.sort(rng.integers(0, nn + 1, size=nt - 1))
                 p = tuple(int(x) for x in np.diff(np.concatenate([[0], cuts, [nn]])))
-                vt = ["other", "ndarray", "field", "multi2", "ndarrayF", "ndarrayT", "ndarrayS", "ndarray0d"][i % 8]
+                vt = ["other", "ndarray", "field", "multi2", "ndarrayF", "ndarrayT", "ndarrayS", "ndarray0d", "ndarrayE", "ndarrayE2"][i % 10]
                 o = run_case(p, vt, 777 + i)
                 n += 1
                 f = direct_failure(o)
